@@ -8,6 +8,7 @@ import (
 	"reflect"
 	"strings"
 	"sync"
+	"sync/atomic"
 	"time"
 
 	"verifharness/abs"
@@ -74,6 +75,8 @@ type hsLine struct {
 	Obs     hsObs      `json:"obs"`
 	Note    string     `json:"note"`
 }
+
+var failSeq uint32
 
 func errClass(err error) string {
 	switch {
@@ -149,7 +152,8 @@ func ceaFor(kind string, cer *wireMsg) []byte {
 	m.Header.HopByHopID, m.Header.EndToEndID = cer.HbH, cer.E2E
 	rc := uint32(2001)
 	if kind == "fail" || kind == "latefail" {
-		rc = 5010
+		// the class "failing Result-Code": protocol errors, transient and permanent failures, informational
+		rc = []uint32{5010, 3004, 5012, 4001, 1001, 5017, 3999}[atomic.AddUint32(&failSeq, 1)%7]
 	}
 	if kind != "noresult" && kind != "latemalformed" {
 		m.NewAVP(avp.ResultCode, avp.Mbit, 0, datatype.Unsigned32(rc))
@@ -205,8 +209,8 @@ func runHandshake(id int, sc *hsScript, configured bool) hsLine {
 		Auth: [][]int{abs.B4(4)}, Acct: [][]int{abs.B4(3)}, VSA: [][]int{append(append(abs.B4(10415), 1), abs.B4(16777251)...)}, SVID: [][]int{abs.B4(10415)},
 		OSID: [][]int{}, FW: [][]int{}, Vendor: [][]int{abs.B4(13)}, Product: "verif-cli"}
 	if configured {
-		set.HostIPAddresses = []datatype.Address{datatype.Address(net.ParseIP("192.0.2.9").To4()), datatype.Address(net.ParseIP("2001:db8::9"))}
-		want.HostIPs = [][]int{addrInts(net.ParseIP("192.0.2.9")), addrInts(net.ParseIP("2001:db8::9"))}
+		set.HostIPAddresses = []datatype.Address{datatype.Address(net.ParseIP("192.0.2.9").To4()), datatype.Address(net.ParseIP("2001:db8::9")), datatype.Address(net.ParseIP("2001:db8::a")), datatype.Address(net.ParseIP("192.0.2.10").To4())}
+		want.HostIPs = [][]int{addrInts(net.ParseIP("192.0.2.9")), addrInts(net.ParseIP("2001:db8::9")), addrInts(net.ParseIP("2001:db8::a")), addrInts(net.ParseIP("192.0.2.10"))}
 		set.OriginStateID, set.FirmwareRevision = 77, 5
 		want.OSID, want.FW = [][]int{abs.B4(77)}, [][]int{abs.B4(5)}
 		l.Note = "configured"
